@@ -44,6 +44,7 @@ type Snap struct {
 	Line int
 	Pos  int
 	Kind string // node type
+	File string
 	Vals map[string]Val
 }
 
@@ -110,7 +111,7 @@ func (m *Monitor) Run(n ast.Node) interpreter.DebugState {
 	}
 	s := Snap{Seq: m.Steps, Kind: fmt.Sprintf("%T", n), Vals: make(map[string]Val, len(m.Names))}
 	if meta := n.GetMeta(); meta != nil {
-		s.Line, s.Pos = meta.Token.Line, meta.Token.Position
+		s.Line, s.Pos, s.File = meta.Token.Line, meta.Token.Position, meta.Token.File
 	}
 	for _, name := range m.Names {
 		s.Vals[name] = m.Read(name)
